@@ -57,6 +57,9 @@ impl<'a> Sim<'a> {
                 self.probe_sign();
             }
             "C06" | "C07" => {
+                if self.t.chance(1, 3) {
+                    self.probe_second_room(n);
+                }
                 self.probe_subsets(n);
                 for _ in 0..k.div_ceil(4) {
                     self.probe_toposort(n);
@@ -518,6 +521,56 @@ impl<'a> Sim<'a> {
         self.resolve_on(n, &sets, "subset-probe");
     }
 
+    /// A small second room resolved on the same thread (and in the same process) as the main room:
+    /// anything a resolution wrongly keeps between calls (a static or thread-local cache of the
+    /// creator, of parsed power levels, of depths) is wrong for this room or for the main room's
+    /// next call. Goes through the same oracles as every other resolution.
+    pub fn probe_second_room(&mut self, n: usize) {
+        let v = self.cfg.v;
+        let host = *self.t.pick(&["other.example", "second.test:8448", "10.9.8.7"]);
+        let room = format!("!second{}:{host}", self.t.below(50));
+        let zed = format!("@zed{}:{host}", self.t.below(3));
+        let yan = format!("@yan:{}", self.servers[n].name);
+        let tag = self.t.below(1_000_000);
+        let id = |s: &str| if v <= 2 { format!("$r2{tag}{s}:{host}") } else { format!("$r2{tag}{s}") };
+        let ylevel = *self.t.pick(&[50i64, 50, 75, 100]);
+        let mk = |ids: &str, ty: &str, sender: &str, sk: Option<&str>, content: J, ts: i64, auth: Vec<String>, prev: Vec<String>| -> Rc<Ev> {
+            Rc::new(Ev { id: ids.to_string(), room_id: room.clone(), sender: sender.to_string(), ty: ty.to_string(), state_key: sk.map(|x| x.to_string()), content, ts, prev, auth, redacts: None })
+        };
+        let mut create_c = BTreeMap::new();
+        if v <= 10 {
+            create_c.insert("creator".to_string(), J::Str(zed.clone()));
+        }
+        create_c.insert("room_version".to_string(), J::Str(v.to_string()));
+        let c = mk(&id("C"), "m.room.create", &zed, Some(""), J::Obj(create_c), 1, vec![], vec![]);
+        let j = mk(&id("J"), "m.room.member", &zed, Some(&zed), o(vec![("membership", J::s("join"))]), 2, vec![c.id.clone()], vec![c.id.clone()]);
+        let p = mk(&id("P"), "m.room.power_levels", &zed, Some(""), o(vec![("users", o(vec![(zed.as_str(), J::Int(100)), (yan.as_str(), J::Int(ylevel))]))]), 3, vec![c.id.clone(), j.id.clone()], vec![j.id.clone()]);
+        let r = mk(&id("R"), "m.room.join_rules", &zed, Some(""), o(vec![("join_rule", J::s("public"))]), 4, vec![c.id.clone(), j.id.clone(), p.id.clone()], vec![p.id.clone()]);
+        let y = mk(&id("Y"), "m.room.member", &yan, Some(&yan), o(vec![("membership", J::s("join"))]), 5, vec![c.id.clone(), p.id.clone(), r.id.clone()], vec![r.id.clone()]);
+        let (ts1, ts2) = if self.t.chance(1, 2) { (10, 20) } else { (20, 10) };
+        let t1 = mk(&id("T1"), "m.room.topic", &zed, Some(""), o(vec![("topic", J::s("one"))]), ts1, vec![c.id.clone(), p.id.clone(), j.id.clone()], vec![y.id.clone()]);
+        let t2 = mk(&id("T2"), "m.room.topic", &yan, Some(""), o(vec![("topic", J::s("two"))]), ts2, vec![c.id.clone(), p.id.clone(), y.id.clone()], vec![y.id.clone()]);
+        let p2 = mk(&id("P2"), "m.room.power_levels", &zed, Some(""), o(vec![("users", o(vec![(zed.as_str(), J::Int(100)), (yan.as_str(), J::Int(0))]))]), 15, vec![c.id.clone(), p.id.clone(), j.id.clone()], vec![t1.id.clone()]);
+        let all = [c.clone(), j.clone(), p.clone(), r.clone(), y.clone(), t1.clone(), t2.clone(), p2.clone()];
+        let mut inserted = Vec::new();
+        for e in &all {
+            let Ok(pdu) = conv::pdu_from_ev(e) else { continue };
+            self.servers[n].dag.insert(e.id.clone(), e.clone());
+            self.servers[n].have.insert(e.id.clone(), crate::sim::NodeEv { ev: e.clone(), pdu: Some(pdu), accepted: true, state_after: Rc::new(StateSet::new()), depth: 1 });
+            inserted.push(e.id.clone());
+        }
+        let st = |evs: &[&Rc<Ev>]| -> Rc<StateSet> { Rc::new(evs.iter().map(|e| (key(&e.ty, e.state_key.as_deref().unwrap_or("")), e.id.clone())).collect()) };
+        let a = st(&[&c, &j, &p2, &r, &y, &t1]);
+        let b = st(&[&c, &j, &p, &r, &y, &t2]);
+        self.bump("probe.second-room");
+        self.flag("c06.second-room");
+        self.resolve_on(n, &[a, b], "second-room");
+        for idd in inserted {
+            self.servers[n].dag.remove(&idd);
+            self.servers[n].have.remove(&idd);
+        }
+    }
+
     pub fn probe_toposort(&mut self, n: usize) {
         let acc: Vec<String> = self.servers[n].have.iter().filter(|(_, x)| x.accepted).map(|(i, _)| i.clone()).collect();
         if acc.is_empty() {
@@ -795,7 +848,8 @@ impl<'a> Sim<'a> {
                 // one signature bit
                 let sigs = tampered.get("signatures").and_then(|s| s.as_obj()).cloned().unwrap_or_default();
                 let ents: Vec<String> = sigs.keys().cloned().collect();
-                if let Some(ent) = ents.first().cloned() {
+                if !ents.is_empty() {
+                    let ent = self.t.pick(&ents).clone();
                     let mut set = sigs[&ent].as_obj().cloned().unwrap_or_default();
                     if let Some((kid, J::Str(s))) = set.iter().next().map(|(a, b)| (a.clone(), b.clone())) {
                         if let Some(mut raw) = refmodel::rb64::decode_std_strict(&s) {
@@ -812,8 +866,9 @@ impl<'a> Sim<'a> {
             }
             3 => {
                 // one key bit
-                if let Some(ent) = signed_by.first() {
-                    if let Some(ks) = tkeys.get_mut(ent) {
+                if !signed_by.is_empty() {
+                    let ent = self.t.pick(&signed_by).clone();
+                    if let Some(ks) = tkeys.get_mut(&ent) {
                         for kbytes in ks.values_mut() {
                             let i = self.t.index(kbytes.len().max(1));
                             kbytes[i] ^= 1 << self.t.below(8);
@@ -846,7 +901,8 @@ impl<'a> Sim<'a> {
             _ => {
                 // rename the key id
                 let sigs = tampered.get("signatures").and_then(|s| s.as_obj()).cloned().unwrap_or_default();
-                if let Some((ent, J::Obj(set))) = sigs.iter().next().map(|(a, b)| (a.clone(), b.clone())) {
+                let which = self.t.index(sigs.len().max(1));
+                if let Some((ent, J::Obj(set))) = sigs.iter().nth(which).map(|(a, b)| (a.clone(), b.clone())) {
                     let set2: BTreeMap<String, J> = set.into_iter().map(|(k, val)| (format!("{k}9"), val)).collect();
                     let mut s2 = sigs.clone();
                     s2.insert(ent, J::Obj(set2));
